@@ -765,6 +765,46 @@ def replay_C11(ctx):
     return check_C11(ctx)
 
 
+def check_C01(ctx):
+    def interpret(ctx, defs, summ):
+        found = False
+        bad = re.sub(r"\s+", " ", defs.get("c01_bad", ""))
+        items = re.findall(r'\((\d+)(?:%nat)?, \[([^\]]*)\]\)', bad)
+        nobs = int(re.sub(r"\D", "", defs.get("n_observed", "0").split(":")[0].replace("%nat", "")) or 0)
+        cases = (summ.get("extra") or {}).get("cases", [])
+        model_bad = [(i, m) for (i, m) in items if "model:" in m]
+        ctx.coverage["traces_validated_against_impl"] = nobs - len(model_bad)
+        ctx.coverage["disagreements"] = {"document_vs_model": len(model_bad), "property_flags": len(items) - len(model_bad)}
+        for (i, msgs) in items:
+            i = int(i)
+            for what in re.findall(r'"([^"]*)"', msgs):
+                if what.startswith("model:"):
+                    continue
+                c = cases[i] if i < len(cases) else {}
+                doc = c.get("document") or {}
+                if what.startswith("dropped: member ") and what.endswith("Map") and what[len("dropped: member "):-3] in doc:
+                    sig = "C01:dropped:both-spellings"
+                else:
+                    sig = "C01:%s:%s" % (what.split(":")[0], c.get("type"))
+                if ctx.violation(sig, "%s (type %s)" % (what, c.get("type")), {"kind": "document", "index": i, "case": c}):
+                    found = True
+        if model_bad and not found:
+            i = int(model_bad[0][0])
+            ctx.violation("C01:model-drift", "the codec model over the translator's tables disagrees with the running code",
+                          {"kind": "correspondence", "projection": "C01 document round trips", "index": i, "case": cases[i] if i < len(cases) else None, "count": len(model_bad)}, nofail=True)
+        return found
+    return generic_table_check(ctx, "C01", "Properties/C01.v", ["c01"], "C01Cases.v",
+                               ["Streams/CodecInst.vo", "Gen/TablesShipped.vo"],
+                               ["Streams/Codec.v (decode + encode as one pass, over the translator's tables), Streams/CodecInst.v (literal codecs as serialise (deserialise x)), Streams/Literals.v (dateTime, duration parsers)",
+                                "modelled, not verified: @context aliases (plain contexts only) and the rebuilt @context value (judged on the real output only: not part of the model); net/url parsing and URL.String() (url_ok is a conservative character test, norm_iri the identity: the generator stays inside); float formatting (integers only); the literal codecs are Section parameters of the theorems: what `lexical` demands of them is checked for the shipped instance on the generated scalars by the correspondence, not proved for all strings",
+                                "partial: idempotence of the round trip is judged on the real code for every generated document, not proved for the model"],
+                               interpret)
+
+
+def replay_C01(ctx):
+    return check_C01(ctx)
+
+
 def check_C03(ctx):
     def classify(name, fields, run):
         return ("C03:%s:%s" % (run["family"].split(":")[0], "payload" if "payload" in fields[1] else "body"), "%s (faults %s): %s" % (run["family"], run["faults"], fields[1]))
